@@ -34,10 +34,15 @@
 (*      the cancelled context, leave, and write the partial batch first -- *)
 (*      the remaining calls are never answered.  With AsCoded = FALSE the  *)
 (*      timer cancels and responds in one atomic step.                     *)
+(* Fixed = TRUE (with AsCoded = TRUE, i.e. the real two-step timer) is the *)
+(* repaired code; TLC checks that it satisfies all invariants.             *)
 (***************************************************************************)
 EXTENDS Integers, Sequences, FiniteSets, TLC
 
 CONSTANTS AsCoded,       \* BOOLEAN, see above
+          Fixed,         \* BOOLEAN (only with AsCoded): handler.go with the repairs of F1 and F2 -- the timer
+                         \* function skips the write for a notification, and the tail of handleBatch calls
+                         \* respondWithError(timeout) instead of write when the batch context is done
           Mode,          \* "conn" | "http"
           Messages,      \* the set of top-level messages the environment may send
           MaxMsgs,       \* number of messages on the connection
@@ -186,6 +191,8 @@ Return(p) ==          \* the method returned: build the answer and push it
   /\ Finish(p, cur[p], Immediate(cur[p], 0), subs)
   /\ UNCHANGED <<nrecv, msg, cancelled, timer>>
 
+TimeoutFill(cs) == SeqMap(LAMBDA e : R(e.id, "timeout"), SelectSeq(cs, Answered))
+
 (* tail of handleBatch / handleNonBatchCall *)
 Fin1(p) ==            \* timer.Stop(); h.addSubscriptions(cp.notifiers)
   /\ pc[p] = "fin1"
@@ -193,14 +200,16 @@ Fin1(p) ==            \* timer.Stop(); h.addSubscriptions(cp.notifiers)
   /\ pc' = [pc EXCEPT ![p] = "fin2"]
   /\ UNCHANGED <<nrecv, msg, calls, cur, resp, wrote, cancelled, bytes, ans, subs, out>>
 
-Fin2(p) ==            \* callBuffer.write / responded.Do(write answer)
+Fin2(p) ==            \* callBuffer.write (Fixed: respondWithError if batchCtx is done) / responded.Do(write answer)
   /\ pc[p] = "fin2"
   /\ wrote' = [wrote EXCEPT ![p] = TRUE]
-  /\ out' = IF wrote[p] THEN out
-            ELSE IF msg[p].batch THEN (IF resp[p] # <<>> THEN Append(out, OBatch(p, resp[p])) ELSE out)
-            ELSE (IF IsNotif(msg[p].items[1]) THEN out ELSE Append(out, OSingle(p, ans[p])))
+  /\ LET r2 == IF Fixed /\ msg[p].batch /\ cancelled[p] THEN resp[p] \o TimeoutFill(calls[p]) ELSE resp[p] IN
+       /\ resp' = [resp EXCEPT ![p] = r2]
+       /\ out' = IF wrote[p] THEN out
+                 ELSE IF msg[p].batch THEN (IF r2 # <<>> THEN Append(out, OBatch(p, r2)) ELSE out)
+                 ELSE (IF IsNotif(msg[p].items[1]) THEN out ELSE Append(out, OSingle(p, ans[p])))
   /\ pc' = [pc EXCEPT ![p] = "fin3"]
-  /\ UNCHANGED <<nrecv, msg, calls, cur, resp, cancelled, timer, bytes, ans, subs>>
+  /\ UNCHANGED <<nrecv, msg, calls, cur, cancelled, timer, bytes, ans, subs>>
 
 Flush(j)  == SeqMap(LAMBDA k : ONote(j, k), subs[j].buf)
 RECURSIVE FlushAll(_, _)
@@ -220,7 +229,6 @@ TimerCancel(p) ==     \* time.AfterFunc body starts: cancel()          (AsCoded 
   /\ cancelled' = [cancelled EXCEPT ![p] = TRUE]
   /\ UNCHANGED <<nrecv, msg, pc, calls, cur, resp, wrote, bytes, ans, subs, out>>
 
-TimeoutFill(cs) == SeqMap(LAMBDA e : R(e.id, "timeout"), SelectSeq(cs, Answered))
 TimerBody(p, from) == \* callBuffer.respondWithError(timeout) / responded.Do(write timeout error)
   /\ timer[p] = from
   /\ timer' = [timer EXCEPT ![p] = "responded"]
@@ -231,7 +239,7 @@ TimerBody(p, from) == \* callBuffer.respondWithError(timeout) / responded.Do(wri
             /\ resp' = [resp EXCEPT ![p] = r2]
             /\ out' = IF ~wrote[p] /\ r2 # <<>> THEN Append(out, OBatch(p, r2)) ELSE out
        ELSE /\ resp' = resp
-            /\ out' = IF ~wrote[p] /\ (AsCoded \/ ~IsNotif(msg[p].items[1]))
+            /\ out' = IF ~wrote[p] /\ ((AsCoded /\ ~Fixed) \/ ~IsNotif(msg[p].items[1]))
                         THEN Append(out, OSingle(p, R(msg[p].items[1].id, "timeout"))) ELSE out
   /\ UNCHANGED <<nrecv, msg, pc, calls, cur, bytes, ans, subs>>
 
@@ -294,5 +302,5 @@ NotesInOrder ==
 (* a timeout or size overflow fills in an error for every unanswered call, never for answered ones *)
 TimeoutOnlyIfFired ==
   \A x \in 1..Len(out) : \A z \in 1..Len(RespsOf(out[x])) :
-     out[x].rs[z].kind = "timeout" => timer[out[x].p] \in {"responded"}
+     out[x].rs[z].kind = "timeout" => timer[out[x].p] \in {"fired", "responded"}
 =============================================================================
